@@ -74,12 +74,12 @@ def inner_period(G, parts):
 
 
 # ----------------------------------------------------------------------------- real code helpers
-def mkfc(G=1.0, nactive=-1, tptype=0, k=0.0, cb=(), soft=0.0, gravity="basic"):
+def mkfc(G=1.0, nactive=-1, tptype=0, k=0.0, cb=(), soft=0.0, gravity="basic", kv=0.0):
     """everything a user can configure around the force / the step that must not affect reversibility:
     N_active, testparticle_type, softening, a velocity-independent additional force a += -k x
     (installed as a ctypes `additional_forces` callback), read-only callbacks
     (cb ⊆ {pre, post, probe}: pre_/post_timestep_modifications, additional_forces), gravity routine"""
-    return dict(G=G, nactive=nactive, tptype=tptype, k=k, cb=tuple(cb), soft=soft, gravity=gravity)
+    return dict(G=G, nactive=nactive, tptype=tptype, k=k, cb=tuple(cb), soft=soft, gravity=gravity, kv=kv)
 
 
 def asfc(x):
@@ -88,7 +88,7 @@ def asfc(x):
 
 def force_tokens(fc):
     fc = asfc(fc)
-    return [d2h(fc["G"]), d2h(fc["soft"]), str(fc["nactive"]), str(fc["tptype"]), d2h(fc["k"])]
+    return [d2h(fc["G"]), d2h(fc["soft"]), str(fc["nactive"]), str(fc["tptype"]), d2h(fc["k"]), d2h(fc.get("kv", 0.0))]
 
 
 def gen_fc(rng, G, parts, full=True, extra=False):
@@ -155,6 +155,7 @@ class Real:
         st = {"af": 0, "pre": 0, "post": 0, "hb": 0, "probe_checked": 0, "probe_bad": 0, "first_bad": None}
         s._c10 = st
         k = fc["k"]
+        kv = fc.get("kv", 0.0)
         cb = fc["cb"]
         if "pre" in cb:
             def pre(ptr):
@@ -170,7 +171,7 @@ class Real:
             def hb(ptr):
                 st["hb"] += 1
             s.heartbeat = hb
-        if k != 0.0 or "probe" in cb:
+        if k != 0.0 or kv != 0.0 or "probe" in cb:
             probe = "probe" in cb and janus is not None
             sp = janus[1] if janus else None
 
@@ -195,6 +196,12 @@ class Real:
                         q.ax += -k * q.x
                         q.ay += -k * q.y
                         q.az += -k * q.z
+                if kv != 0.0:            # velocity-dependent (drag): outside the reversal theorem
+                    for i in range(N):
+                        q = ps[i]
+                        q.ax += -kv * q.vx
+                        q.ay += -kv * q.vy
+                        q.az += -kv * q.vz
             s.additional_forces = af
         return s
 
@@ -298,6 +305,16 @@ def run(c):
         if bad:
             c.corr_break("compiled gamma constants differ from the correctly rounded decimal text: %s" % bad[:3], bad)
 
+    # the operator schedules of WHFast / SABA / EOS / LEAPFROG (theorems c10_*_real_schedule_reverse) come from
+    # builder b-c01's translator (read-only use): regenerate them from the tree under test
+    try:
+        import extract_c01
+        _, ch01 = extract_c01.write_gen(REPO, LEAN, write_if_changed)
+        c.cov["extracted"] = dict(c.cov.get("extracted", {}), c01_schedules_regenerated=ch01)
+    except Exception as e:      # the translator raises its own exception types
+        c.broken.append("proof obligation: rv/extract_c01.py could not derive the operator schedules from the sources: %s" % str(e)[:300])
+        c.log("SCHEDULE EXTRACTION FAILED:", str(e)[:200])
+
     # ---- 3. proofs
     c.prove(["RV.Props.C10"])
     exe = lean_exe("drv_c10")
@@ -336,6 +353,7 @@ def run(c):
     search_symmetric(c, R)
     probe_kepler(c, R)
     search_flyby(c, R)
+    velocity_dependent(c, R, exe)
 
 
 # ----------------------------------------------------------------------------- correspondence
@@ -823,6 +841,35 @@ def search_janus(c, R):
                      "is not to_double(p_int) (order %d)" % (probe_first["particle"], probe_first["N"], probe_first["N_active"], probe_first["order"]), probe_first)
     if flag_bad:
         c.corr_break("ri_janus.recalculate_integer_coordinates_this_timestep / N_allocated not clear at %d step boundaries of undisturbed search runs" % flag_bad)
+
+
+# ----------------------------------------------------------------------------- velocity-dependent force (negative)
+def velocity_dependent(c, R, exe):
+    """theorem c10_janus_velocity_dependent_force_not_reversible on the real code: with a drag a += -kv v installed as
+    additional_forces the model (stepV) still matches the implementation bit for bit, and the round trip is NOT exact.
+    Evidence only (a velocity-dependent force is outside the property); a mismatch of the tie is reported."""
+    rng = c.rng.fork()
+    ncase = 30 if c.thorough else 10
+    lines, expect, meta = [], [], []
+    notexact = 0
+    for case in range(ncase):
+        n = rng.randint(2, 5)
+        G, parts = gen_planetary(rng, n)
+        order = [2, 4, 6, 8, 10][case % 5]
+        fc = mkfc(G, kv=rng.loguniform(1e-3, 1e-1))
+        dt = inner_period(G, parts) / rng.choice([20, 50])
+        nf = rng.randint(5, 15)
+        segs = [(0.0, 1), (dt, nf), (-dt, nf)]
+        lines.append(janus_line(order, 1e-16, 1e-16, fc, 1, segs, parts))
+        recs, sim, fb = real_janus_records(R, order, 1e-16, 1e-16, fc, 1, segs, parts)
+        expect.append(recs)
+        notexact += recs[0] != recs[-1]
+        c.count(("velocity-dependent", order, n), n=2 * nf)
+    got = run_driver(exe, lines)
+    bad = sum(1 for g, e in zip(got, expect) if [r.strip() for r in g.split("|")][1:] != e)
+    c.cov["velocity_dependent_force"] = {"runs": ncase, "model_bitwise_equal": ncase - bad, "round_trips_not_exact(expected: all)": notexact}
+    if bad:
+        c.corr_break("JANUS model with a velocity-dependent additional force (stepV) differs from the implementation on %d of %d runs" % (bad, ncase))
 
 
 # ----------------------------------------------------------------------------- Kepler primitive
